@@ -18,24 +18,24 @@ RULES = {
     "C11": [("sa.rules.b3", "r_C03de_C11a_C17bc"), ("sa.rules.c11", "r_C11b"), ("sa.rules.c05", "r_none_tests")],
     "C12": [("sa.rules.b1", "r_C12a"), ("sa.rules.c12", "r_C12b"), ("sa.rules.c05", "r_C12c")],
     "C13": [("sa.rules.b3", "r_C13")],
-    "C14": [("sa.rules.b4", "r_ledger"), ("sa.rules.b1", "r_C14c")],
-    "C15": [("sa.rules.b4", "r_ledger")],
-    "C16": [("sa.rules.b3", "r_C16a")],
+    "C14": [("sa.rules.b4", "r_ledger"), ("sa.rules.b1", "r_C14c"), ("sa.rules.c14", "r_ledger2"), ("sa.rules.b3", "r_C13")],
+    "C15": [("sa.rules.b4", "r_ledger"), ("sa.rules.c14", "r_ledger2")],
+    "C16": [("sa.rules.b3", "r_C16a"), ("sa.rules.c14", "r_ledger2"), ("sa.rules.c16", "r_cachekeys")],
     "C17": [("sa.rules.b3", "r_C03de_C11a_C17bc"), ("sa.rules.b6", "r_C17ad_C22b"), ("sa.rules.c05", "r_none_tests")],
-    "C18": [("sa.rules.b4", "r_ledger")],
-    "C19": [("sa.rules.b6", "r_C19a_C01")],
-    "C20": [("sa.rules.b1", "r_C20a"), ("sa.rules.b6", "r_C19a_C01")],
-    "C21": [("sa.rules.b2", "r_C21a"), ("sa.rules.b6", "r_C19a_C01")],
+    "C18": [("sa.rules.b4", "r_ledger"), ("sa.rules.c14", "r_ledger2")],
+    "C19": [("sa.rules.b6", "r_C19a_C01"), ("sa.rules.c16", "r_cachekeys")],
+    "C20": [("sa.rules.b1", "r_C20a"), ("sa.rules.b6", "r_C19a_C01"), ("sa.rules.c16", "r_cachekeys")],
+    "C21": [("sa.rules.b2", "r_C21a"), ("sa.rules.b6", "r_C19a_C01"), ("sa.rules.c16", "r_cachekeys")],
     "C22": [("sa.rules.b6", "r_C19a_C01"), ("sa.rules.b6", "r_C17ad_C22b")],
     "C23": [("sa.rules.b6", "r_C23")],
-    "C24": [("sa.peg", "r_C24")],
+    "C24": [("sa.peg", "r_C24"), ("sa.rules.c16", "r_cachekeys")],
     "C25": [("sa.rules.b2", "r_C25")],
     "C26": [("sa.rules.b2", "r_C26a"), ("sa.rules.b2", "r_C26bcdef")],
     "C27": [("sa.rules.b1", "r_C27")],
     "C28": [("sa.rules.b7", "r_origin"), ("sa.rules.b3", "r_C28b_C33b_C30bc")],
     "C29": [("sa.rules.b5", "r_C29")],
     "C30": [("sa.rules.b1", "r_C30a"), ("sa.rules.b3", "r_C28b_C33b_C30bc")],
-    "C31": [("sa.rules.b4", "r_ledger")],
+    "C31": [("sa.rules.b4", "r_ledger"), ("sa.rules.c14", "r_ledger2")],
     "C32": [("sa.rules.b1", "r_C32a")],
     "C33": [("sa.rules.b1", "r_C33a"), ("sa.rules.b3", "r_C28b_C33b_C30bc")],
     "C34": [("sa.rules.b3", "r_C08_C34")],
@@ -47,6 +47,9 @@ ALSO = {
     "C02": {"C08": ("C08.a", "C08.b", "C08.c"), "C01": ("C01.e",)},
     # "matching object of the right type": the conformance test textx_isinstance is part of C07's selector
     "C07": {"C03": ("C03.c", "C03.d", "C03.h")},
+    # C14: "__init__ ... runs before any object processor" is the ordering clause C13.a; instrumentation/storage clauses of C15
+    "C14": {"C13": ("C13.a",), "C15": ("C15.c", "C15.d", "C15.e", "C15.f")},
+    "C15": {"C14": ("C14.a", "C14.f", "C14.e"), "C18": ("C18.c", "C18.d", "C18.f")},
     # base type conversion: with use_regexp_group the converted text is decided by C01.g
     "C04": {"C01": ("C01.g",)},
     # C01.c (rule modifiers on an expression that ignores them) is the whitespace clause of C22 as well
